@@ -128,6 +128,9 @@ def main(tier):
             ("cyclic", "a = [1]; &cc = 2; &cc.arr = [{'k': [a]}]; a.push({'c': [&cc]}); [0, a]"),
             ("acyclic", "zz = {'k': 1}; &cc = this.x; &cc.x = zz; [&cc, zz, &cc]"), ("acyclic", "&c1 = 1; &c2 = 2; &c2.o = &c1; [&c1, &c2, &c1, {'k': &c2}]"),
             ("acyclic", "a = [1]; &cc = 2; &cc.p = a; &cc.q = a; [a, &cc, a]"),
+            # ONE computed value object (with attributes / already evaluated) reached twice through a shared container: no cycle
+            ("acyclic", "&cc = 1; &cc.x = 2; row = [&cc]; [row, row]"), ("acyclic", "&cc = 1 + 1; cc; row = [&cc]; [row, row, {'k': row}]"),
+            ("acyclic", "&cc = 5; &cc.x = [1]; dd = {'c': &cc}; [dd, dd]"), ("acyclic", "&cc = 5; &cc.x = 1; row = [&cc, &cc]; sheet = [row, [row]]; sheet"),
             # values that JSON cannot represent (infinities, NaN), alone and inside every kind of container: an error, never a document
             ("nonfinite", "big = 2.0 ** 5000; big"), ("nonfinite", "big = 2.0 ** 5000; [1, big - big]"), ("nonfinite", "{'k': 2.0 ** 5000}"),
             ("nonfinite", "x = 0.0 - 2.0 ** 5000; [x]"), ("nonfinite", "big = 2.0 ** 5000; &c = 1; &c.a = big; &c"), ("nonfinite", "big = 2.0 ** 5000; [[[{'a': [big]}]]]"),
@@ -168,6 +171,8 @@ def main(tier):
             ("func deep(n) { n > 0 ? deep(n - 1) + 1 : 1 / z }; z = 0", ["deep(2)", "z = 1", "deep(2)"]),
             ("func f() { 2d6 + nosuch() }; func g() { 2d6 }", ["f()", "g()", "f()", "g() + g()"]),
             ("&cq = `{1/z}`; z = 0", ["cq", "z = 2", "cq"]),
+            # variables that share one container holding a computed value with attributes: representable, must snapshot and restore
+            ("&cq = 2 + 3; &cq.x = 7; row = [&cq]; row2 = row", ["row2[0]", "cq + 1", "row[0]"]),
         ]
         for pre, sufs in DIRECTED:
             for _ in range(2):
